@@ -260,10 +260,13 @@ Proof.
     destruct (bytes_eqb ms (bs "join")) eqn:Ej; simpl andb; [|reflexivity].
     unfold authorised_via. rewrite Hre. cbn [e_content].
     destruct (spec_restricted_joins ver); [|reflexivity].
-    unfold s_authorised_via, jget. rewrite Ec.
+    simpl in C5. apply andb_true_iff in C5 as [C5a C5b].
     change k_authorised_via with (bs "join_authorised_via_users_server").
+    rewrite (go_string_unambiguous (bs "join_authorised_via_users_server") c eq_refl C5a).
+    unfold s_authorised_via, jget. rewrite Ec. unfold s_str, jget.
     destruct (assoc_first (bs "join_authorised_via_users_server") c) as [[| | |u| |]|]; try discriminate; [|reflexivity].
-    destruct (proper_id_domain _ _ sigil_at C5) as [c0 [d0 [_ [Hdom Hsrv]]]].
+    destruct (proper_id_domain _ _ sigil_at C5b) as [c0 [d0 [_ [Hdom Hsrv]]]].
+    destruct u as [|u0 u']; [discriminate C5b|].
     rewrite Hdom, Hsrv. reflexivity. }
   rewrite Hmem. reflexivity.
 Qed.
